@@ -1,10 +1,12 @@
 import GV.Lib.Line
 import GV.Model.Offsets
 import GV.Model.OffsetsTruth
+import GV.Model.OffsetsWit
 /-
   op (feed_impl): blk <era> <form description> <hex block> \t <implementation output>
   out: S=<ranges|err> E=<ranges|err> cmp=<copied from the implementation: the
        harness' comparison of the reported ranges with Cbor() of the decoded components>
+       X=<datum / redeemer / script ranges per transaction (model: GV.Model.OffsetsWit)>
   spec: when the era decoder accepted the block (cmp ≠ nodec), both entry points
         must report exactly the ranges obtained by composing child spans along
         each component's path, and those must slice out the decoded components.
@@ -22,6 +24,17 @@ def fmtLocs : Option (List Loc) → String
   | none => "err"
   | some ls => toString ls.length ++ String.join (ls.map fmtLoc)
 
+def fmtComp (c : GV.Model.OffsetsWit.Comp) : String :=
+  if c.isEmpty then "-" else
+  "D" ++ ",".intercalate (c.datums.map fmtRange) ++ ";R" ++
+    ",".intercalate (c.redeemers.map fun r => s!"{r.1}.{r.2.1}@{r.2.2.1}+{r.2.2.2}") ++ ";S" ++
+    ",".intercalate (c.scripts.map fmtRange)
+
+def fmtComps : Option (List GV.Model.OffsetsWit.Comp) → String
+  | none => "err"
+  | some [] => "none"
+  | some cs => "|".intercalate (cs.map fmtComp)
+
 def cmpField (impl : String) : String :=
   match (impl.splitOn " ").filter (fun t => t.startsWith "cmp=") with
   | t :: _ => t
@@ -37,12 +50,13 @@ def handle (line : String) : Out :=
       | some b =>
         let m := fmtLocs (extract b)
         let cmp := cmpField impl
-        let model := s!"S={m} E={m} {cmp}"
+        let x := fmtComps (GV.Model.OffsetsWit.components b)
+        let model := s!"S={m} E={m} {cmp} X={x}"
         let spec :=
           if cmp = "cmp=nodec" then "*"
           else match GV.Model.OffsetsTruth.truth era b with
             | none => "*"
-            | some t => let s := fmtLocs (some t); s!"S={s} E={s} cmp=ok"
+            | some t => let s := fmtLocs (some t); s!"S={s} E={s} cmp=ok *"
         { model := model, spec := spec }
     | _ => badOp
   | _ => badOp
